@@ -79,11 +79,27 @@ def jObs : Obs → Json
   | .bulk e => Json.mkObj [("seterrs", .num 0), ("err", .bool e)]
   | .ok => Json.mkObj [("ok", .bool true)]
 
+/-- 5 ASCII decimal digits of `i` (zero padded). -/
+def fillSuffix (i : Nat) : Bytes :=
+  [i / 10000 % 10, i / 1000 % 10, i / 100 % 10, i / 10 % 10, i % 10].map fun d => UInt8.ofNat (48 + d)
+
 /-- The model is the same for every driver: the driver name in `reset` is not consulted. -/
 def step (m : List KV) (j : Json) : List KV × Json :=
   match str? j "op" with
   | some "reset" => ([], Json.mkObj [("ok", .bool true)])
   | _ =>
+    match str? j "op", hex? j "p", nat? j "n" with
+    | some "fill", some p, some n =>
+      -- n keys p ++ 5-digit decimal index, written by one bulk write (volume case: prefix deletes
+      -- work in blocks of 10000 keys on some drivers)
+      let sets : List KV := (List.range n).map fun i => (p ++ fillSuffix i, [120])
+      let r := Grip.C10.step m (.bulk sets false); (r.1, jObs r.2)
+    | some "count", some p, _ =>
+      let l := SMap.withPrefix m p
+      (m, Json.mkObj [("n", .num ⟨l.length, 0⟩),
+                      ("first", match l.head? with | some kv => jHex kv.1 | none => .null),
+                      ("last", match l.getLast? with | some kv => jHex kv.1 | none => .null)])
+    | _, _, _ =>
     match opOf j with
     | none => (m, Drv.bad "C10: cannot decode op")
     | some (.sync kvs) =>
